@@ -152,7 +152,7 @@ class Contract:
                  config_filter=None, unroll=0, defs=None, lets=None, sampler=None,
                  ghost_init=None, ghost_on_call=None, no_sampling=False,
                  ghost_on_result=None, native_expand=None, native_ensures=(), split_configs=False,
-                 exc_modifies=None):
+                 exc_modifies=None, ensures_check_only=()):
         self.target = target
         self.props = list(props)
         self.params = params
@@ -190,6 +190,9 @@ class Contract:
         self.native_ensures = list(native_ensures)
         self.split_configs = split_configs
         self.exc_modifies = exc_modifies
+        # proved against the body but not assumed at call sites (e.g. statements over a universally
+        # quantified spec variable that is not an argument)
+        self.ensures_check_only = list(ensures_check_only)
 
 
 REGISTRY = {}
